@@ -216,29 +216,35 @@ Proof.
   destruct t_good as (Gd & Gc & Gp & Gs & Gn & Gnet & Gu & Gg & Gca & Gnb & Gna & Gi).
   assert (HB : fits (details_body c)) by (apply fits_details_body; exact HL).
   destruct (details_body_bounds c) as (B1 & B2 & B3 & B4 & B5).
+  assert (F1 : fits (c_name c)) by (clear - B1 HB; unfold fits in *; lia).
+  assert (F2 : fits (flat_map enc_net (c_nets c))) by (clear - B2 HB; unfold fits in *; lia).
+  assert (F3 : fits (flat_map enc_net (c_unsafe c))) by (clear - B3 HB; unfold fits in *; lia).
+  assert (F4 : fits (flat_map enc_group (c_groups c))) by (clear - B4 HB; unfold fits in *; lia).
+  assert (F5 : fits (c_issuer c)) by (clear - B5 HB; unfold fits in *; lia).
+  clear B1 B2 B3 B4 B5.
   unfold encode_details in *. unfold unmarshal_details. rewrite read_asn1_ok0 by assumption.
   unfold details_body. rewrite is_nil_emit_app.
-  rewrite read_asn1_ok by (try assumption; flia).
-  rewrite (is_nil_false _ Hn). replace (max_name_length <? lenN (c_name c)) with false by (symmetry; apply N.ltb_ge; flia).
+  rewrite read_asn1_ok by assumption.
+  rewrite (is_nil_false _ Hn). replace (max_name_length <? lenN (c_name c)) with false by (symmetry; apply N.ltb_ge; exact Hnl).
   cbn [orb].
   (* networks *)
   rewrite (read_opt_list_enc t_networks read_net enc_net);
-    [|assumption|unfold fits in *; lia|exact read_net_progress
+    [|assumption|assumption|exact read_net_progress
      |intros p rest Hp; apply read_net_enc; rewrite forallb_forall in Hnets; now apply Hnets
      |intros p _; apply emit_tlv_nonempty
      |intros _; solve_peek].
   (* unsafe networks *)
   rewrite (read_opt_list_enc t_unsafe read_net enc_net);
-    [|assumption|unfold fits in *; lia|exact read_net_progress
+    [|assumption|assumption|exact read_net_progress
      |intros p rest Hp; apply read_net_enc; rewrite forallb_forall in Huns; now apply Huns
      |intros p _; apply emit_tlv_nonempty
      |intros _; solve_peek].
   (* groups *)
   rewrite (read_opt_list_enc t_groups read_group enc_group);
-    [|assumption|unfold fits in *; lia|exact read_group_progress
+    [|assumption|assumption|exact read_group_progress
      |intros g rest Hg; apply read_group_enc; [now apply Hgrp|];
       pose proof (flat_map_elem_len enc_group _ _ Hg) as X; unfold enc_group in X at 1;
-      pose proof (emit_tlv_length tag_utf8string g); unfold fits in *; lia
+      pose proof (emit_tlv_length tag_utf8string g) as X2; clear - X X2 F4; unfold fits in *; lia
      |intros g _; apply emit_tlv_nonempty
      |intros _; solve_peek].
   rewrite read_opt_bool_enc by (try assumption; solve_peek).
